@@ -938,3 +938,14 @@ fn test_sieve_block() {
     eprintln!("smooth {:?}", res);
     assert_eq!(res, expect);
 }
+
+/// Read-only access to private items for the verification harness.
+#[cfg(yamaquasi_verif)]
+pub mod verif_access {
+    use super::*;
+
+    /// For each small-bucket table (size classes 16..18): (overflow count, overflow capacity).
+    pub fn table_overflows(s: &Sieve) -> Vec<(usize, usize)> {
+        s.tables.iter().map(|t| (t.n_overflows, t.overflows.len())).collect()
+    }
+}
